@@ -1481,6 +1481,38 @@ static int parse_loop(struct scanner_s *scanner, cif_container_tp *container) {
     return result;
 }
 
+/*
+ * Determines whether the name carried by list element 'last' duplicates, in the sense of CIF name equivalence, any of
+ * the names carried by the elements that precede it in the list starting at 'head'.  Returns CIF_OK if so,
+ * CIF_NOSUCH_ITEM if not, or an error code if the comparison cannot be performed.
+ */
+static int find_header_name(string_element_tp *head, string_element_tp *last) {
+    UChar *name_norm;
+    int result = cif_normalize_item_name(last->string, -1, &name_norm, CIF_NOSUCH_ITEM);
+
+    if (result == CIF_OK) {
+        result = CIF_NOSUCH_ITEM;
+        for (; (head != last) && (result == CIF_NOSUCH_ITEM); head = head->next) {
+            if (head->string != NULL) {
+                UChar *other_norm;
+                int other_result = cif_normalize_item_name(head->string, -1, &other_norm, CIF_NOSUCH_ITEM);
+
+                if (other_result == CIF_OK) {
+                    if (u_strcmp(name_norm, other_norm) == 0) {
+                        result = CIF_OK;
+                    }
+                    free(other_norm);
+                } else if (other_result != CIF_NOSUCH_ITEM) {
+                    result = other_result;
+                }
+            }
+        }
+        free(name_norm);
+    }
+
+    return result;
+}
+
 static int parse_loop_header(struct scanner_s *scanner, cif_container_tp *container, string_element_tp **name_list_head,
         int *name_countp) {
     string_element_tp **next_namep = name_list_head;  /* a pointer to the pointer to the next data name in the header */
@@ -1509,8 +1541,13 @@ static int parse_loop_header(struct scanner_s *scanner, cif_container_tp *contai
                 (*next_namep)->string[token_length] = 0;
 
                 /* check for data name duplication */
-                switch (result = ((container == NULL) ? CIF_NOSUCH_ITEM
-                            : cif_container_get_item_loop(container, (*next_namep)->string, NULL))) {
+                result = ((container == NULL) ? CIF_NOSUCH_ITEM
+                            : cif_container_get_item_loop(container, (*next_namep)->string, NULL));
+                if ((result == CIF_NOSUCH_ITEM) && (container != NULL)) {
+                    /* the name must not duplicate an earlier one in this same header, either */
+                    result = find_header_name(*name_list_head, *next_namep);
+                }
+                switch (result) {
                     case CIF_NOSUCH_ITEM:
                         /* the expected case */
                         break;
